@@ -77,6 +77,9 @@ def check(ck: Checker) -> None:
     from . import round4 as _r4
 
     _r4.post_copy_covers_all(ck, "C01.protect")
+    from . import round7 as _r7
+
+    _r7.meta_from_info_own_keys(ck, "C01.algo")
     _r4.hashinfo_identity(ck, "C01.pair")
 
 
